@@ -194,7 +194,7 @@ func appendTextValue(buf *[]byte, v slog.Value, colorful bool) {
 	case slog.KindAny, slog.KindLogValuer:
 		va := v.Any()
 		if vv, ok := va.(encoding.TextMarshaler); ok {
-			if data, err := vv.MarshalText(); err != nil {
+			if data, err := safeMarshalText(vv); err != nil {
 				appendTextString(buf, err.Error())
 			} else {
 				appendTextString(buf, string(data))
@@ -208,7 +208,7 @@ func appendTextValue(buf *[]byte, v slog.Value, colorful bool) {
 				appendTextString(buf, vv.Value)
 			}
 		} else if vv, ok := va.(error); ok {
-			appendTextString(buf, vv.Error())
+			appendTextString(buf, safeErrorString(vv))
 		} else if vv, ok := va.([]byte); ok {
 			appendTextString(buf, string(vv))
 		} else {
